@@ -305,6 +305,10 @@ type subSpec struct {
 	Paths  []*pb.Path // a nil entry is a Subscription without a path
 	Poll   bool
 	Polls  int
+	// HalfClose: the client's last request (the initial one when Polls == 0,
+	// else the last trigger, issued after the previous sync_response was seen)
+	// is followed by CloseSend at once, before the round it asks for is read.
+	HalfClose bool
 }
 
 func (s *subSpec) request() *pb.SubscribeRequest {
@@ -409,6 +413,9 @@ func (s *subSpec) describe() map[string]interface{} {
 	mode := "ONCE"
 	if s.Poll {
 		mode = fmt.Sprintf("POLL(%d triggers)", s.Polls)
+		if s.HalfClose {
+			mode = fmt.Sprintf("POLL(%d triggers, request stream closed right after the last request)", s.Polls)
+		}
 	}
 	return map[string]interface{}{"mode": mode, "target": s.Target, "prefix": compactPath(s.Prefix), "paths": ps, "model_queries_below_target": qstr, "rejected_origin_combination": rej}
 }
@@ -496,7 +503,8 @@ type roundObs struct {
 	Resp       []*pb.SubscribeResponse // up to and including the round's sync_response
 	Ticks      []int64                 // logical time at which each response was handed to Send
 	HasSync    bool
-	Spurious   int // responses that appeared after the sync before the next trigger was issued / the RPC ended
+	Spurious   int  // responses that appeared after the sync before the next trigger was issued / the RPC ended
+	HalfClosed bool // the request stream was closed right after the request this round answers
 }
 
 type rpcObs struct {
@@ -518,6 +526,7 @@ type driveOpts struct {
 	between    func(round int) // after a round's sync was observed, before the next trigger
 	quiet      func() bool     // nothing else is running (writers done); nil = always quiet
 	slowSend   int             // 0 none, 1 yield in Send, 2 short sleep in the first sends
+	halfClose  bool            // POLL: CloseSend immediately after the last request (initial request or last trigger)
 	idle       time.Duration   // POLL: after every round's sync_response the client stays idle this long (nothing is being sent)
 }
 
@@ -659,7 +668,42 @@ func drive(srv *subscribe.Server, req *pb.SubscribeRequest, o driveOpts) *rpcObs
 	}
 
 	from := 0
+	if o.halfClose && o.polls == 0 {
+		st.CloseSend()
+	}
 	for rd := 0; rd <= o.polls; rd++ {
+		if o.halfClose && rd == o.polls {
+			// The request this round answers (issued after the previous round's
+			// sync_response was observed) was followed by CloseSend at once: the
+			// round is read only now, up to the end of the RPC.
+			if await(nil) == "stuck" {
+				stuck(fmt.Sprintf("the end of the RPC (round %d requested, then the request stream closed at once)", rd))
+				return obs
+			}
+			if obs.Panic != "" {
+				obs.Ended = true
+				return obs
+			}
+			sent := st.Sent()[:nAtReturn]
+			idx := -1
+			for i := from; i < len(sent); i++ {
+				if sent[i].GetSyncResponse() {
+					idx = i
+					break
+				}
+			}
+			ro := roundObs{Start: start, End: tick(), HalfClosed: true}
+			if idx < 0 {
+				ro.Resp, ro.Ticks = sent[from:], getTicks(from, len(sent))
+				from = len(sent)
+			} else {
+				ro.Resp, ro.Ticks, ro.HasSync = sent[from:idx+1], getTicks(from, idx+1), true
+				from = idx + 1
+			}
+			obs.Rounds = append(obs.Rounds, ro)
+			finish(from)
+			return obs
+		}
 		f := from
 		res := await(func(sent []*pb.SubscribeResponse) bool {
 			for _, m := range sent[f:] {
@@ -719,6 +763,9 @@ func drive(srv *subscribe.Server, req *pb.SubscribeRequest, o driveOpts) *rpcObs
 		obs.Rounds = append(obs.Rounds, ro)
 		start = tick()
 		st.Push(pollTrigger)
+		if o.halfClose && rd+1 == o.polls {
+			st.CloseSend()
+		}
 	}
 	st.CloseSend()
 	if await(nil) == "stuck" {
@@ -760,6 +807,13 @@ func judgeShape(s *subSpec, obs *rpcObs) *verdict {
 			} else if m.GetUpdate() == nil {
 				return &verdict{"malformed-response", fmt.Sprintf("round %d response #%d is neither an update nor a sync_response: %v", rd, i, m), rd}
 			}
+		}
+		if nsync == 0 && ro.HalfClosed {
+			asked := "by the initial request"
+			if rd > 0 {
+				asked = "by a trigger issued after the previous sync_response had been received"
+			}
+			return &verdict{"round-truncated-on-half-close", fmt.Sprintf("round %d was asked for %s and the request stream was closed right after that request; the RPC ended with status %v after only %d responses of that round and without its sync_response", rd, asked, obs.Err, len(ro.Resp)), rd}
 		}
 		if nsync == 0 {
 			return &verdict{"sync-missing", fmt.Sprintf("round %d ended without a sync_response (%d responses)", rd, len(ro.Resp)), rd}
@@ -913,7 +967,7 @@ func runStatic(r *vlib.Run, cs staticCase, w *world, s *subSpec, slow int, mutat
 	// round: the model is snapshotted before the first round and after each
 	// between-rounds change (leaves are never modified in place).
 	snaps := []*world{w.snapshot()}
-	opts := driveOpts{poll: s.Poll, polls: s.Polls, slowSend: slow}
+	opts := driveOpts{poll: s.Poll, polls: s.Polls, slowSend: slow, halfClose: s.Poll && s.HalfClose}
 	if s.Poll {
 		opts.between = func(rd int) {
 			if mutate != nil {
@@ -975,6 +1029,13 @@ func runStatic(r *vlib.Run, cs staticCase, w *world, s *subSpec, slow int, mutat
 		default:
 			r.Count("rounds_judged_poll_after_trigger", 1)
 		}
+		if ro.HalfClosed {
+			if rd == 0 {
+				r.Count("rounds_judged_poll_initial_request_then_immediate_close", 1)
+			} else {
+				r.Count("rounds_judged_poll_trigger_then_immediate_close", 1)
+			}
+		}
 		r.Count("matching_set_"+stt.class, 1)
 		r.Count("matching_leaves_required", int64(stt.expected))
 		r.Count("snapshot_updates_compared", int64(stt.delivered))
@@ -987,7 +1048,7 @@ func runStatic(r *vlib.Run, cs staticCase, w *world, s *subSpec, slow int, mutat
 	}
 	r.Count("rpcs_held_"+mode, 1)
 	if nontrivial {
-		r.Distinct(vlib.Hash(cs.mode, req.String(), strings.Join(snaps[0].dump(), "\n"), len(obs.Rounds)))
+		r.Distinct(vlib.Hash(cs.mode, req.String(), strings.Join(snaps[0].dump(), "\n"), len(obs.Rounds), s.HalfClose))
 	}
 }
 
@@ -1053,7 +1114,11 @@ func runExhaustive(r *vlib.Run) {
 			}
 		}
 		n++
-		runStatic(r, staticCase{"exhaustive", idx - 1, tag}, w, s, 0, nil)
+		slow := 0
+		if s.HalfClose && (idx/2)%2 == 1 {
+			slow = 1 // every other half-close case with a slow receiver
+		}
+		runStatic(r, staticCase{"exhaustive", idx - 1, tag}, w, s, slow, nil)
 	}
 	maxLen := r.N(4, 5)
 	for _, q := range allQueries(maxLen) {
@@ -1070,10 +1135,15 @@ func runExhaustive(r *vlib.Run) {
 					break
 				}
 				for _, target := range []string{"T0", "*"} {
-					for _, poll := range []bool{false, true} {
-						s := &subSpec{Target: target, Poll: poll}
-						if poll {
+					for _, variant := range []string{"once", "poll-1", "poll-1-half-close", "poll-0-half-close"} {
+						s := &subSpec{Target: target, Poll: variant != "once"}
+						switch variant {
+						case "poll-1":
 							s.Polls = 1
+						case "poll-1-half-close":
+							s.Polls, s.HalfClose = 1, true
+						case "poll-0-half-close":
+							s.Polls, s.HalfClose = 0, true
 						}
 						s.Prefix = gen.Path(false, full[:j]...)
 						s.Prefix.Target = target
@@ -1314,6 +1384,7 @@ func genSub(rng *rand.Rand, w *world, poll bool) *subSpec {
 	s := &subSpec{Poll: poll}
 	if poll {
 		s.Polls = rng.Intn(5)
+		s.HalfClose = rng.Intn(3) == 0
 	}
 	if rng.Intn(100) < 35 {
 		s.Target = "*"
@@ -1583,6 +1654,7 @@ func runConcurrent(r *vlib.Run, trial int, rng *rand.Rand) {
 		s := &subSpec{Poll: rng.Intn(2) == 0}
 		if s.Poll {
 			s.Polls = 1 + rng.Intn(3)
+			s.HalfClose = rng.Intn(3) == 0
 		}
 		if rng.Intn(3) == 0 {
 			s.Target = "*"
@@ -1728,7 +1800,7 @@ func runConcurrent(r *vlib.Run, trial int, rng *rand.Rand) {
 		}
 		atomic.StoreInt32(&phase, 1)
 		r.Eval(1)
-		rc.obs = drive(srv, rc.sub.request(), driveOpts{poll: rc.sub.Poll, polls: rc.sub.Polls, quiet: quiet,
+		rc.obs = drive(srv, rc.sub.request(), driveOpts{poll: rc.sub.Poll, polls: rc.sub.Polls, halfClose: rc.sub.Poll && rc.sub.HalfClose, quiet: quiet,
 			between: func(int) { atomic.StoreInt32(&phase, 1) }})
 		atomic.StoreInt32(&phase, 0)
 		if rc.obs.Stuck != "" {
@@ -1907,6 +1979,9 @@ func runConcurrent(r *vlib.Run, trial int, rng *rand.Rand) {
 				break
 			}
 			r.Count("conc_rounds_judged", 1)
+			if ro.HalfClosed {
+				r.Count("conc_rounds_judged_request_then_immediate_close", 1)
+			}
 			if overlapped {
 				r.Count("conc_rounds_overlapping_writes_to_matching_leaves", 1)
 			}
@@ -1964,6 +2039,7 @@ func runPollIdle(r *vlib.Run, trial int, rng *rand.Rand) {
 		return
 	}
 	s.Polls = 1 + rng.Intn(2)
+	s.HalfClose = false // this mode closes the request stream only after an idle period
 	qs, _ := s.queries()
 	req := s.request()
 	mrng := rand.New(rand.NewSource(rng.Int63()))
@@ -2066,7 +2142,7 @@ func body(r *vlib.Run) {
 
 func postMerge(tier string, c map[string]int64) []string {
 	var out []string
-	for _, k := range []string{"rounds_judged_once", "rounds_judged_poll_initial", "rounds_judged_poll_after_trigger", "matching_set_proper", "rejected_origin_combination_rpcs", "leaves_delivered_more_than_once", "between_round_cache_changes", "conc_rounds_overlapping_writes_to_matching_leaves", "conc_leaves_required_present", "conc_values_judged", "pollidle_rounds_answered_completely_after_idle"} {
+	for _, k := range []string{"rounds_judged_once", "rounds_judged_poll_initial", "rounds_judged_poll_after_trigger", "matching_set_proper", "rejected_origin_combination_rpcs", "leaves_delivered_more_than_once", "between_round_cache_changes", "conc_rounds_overlapping_writes_to_matching_leaves", "conc_leaves_required_present", "conc_values_judged", "pollidle_rounds_answered_completely_after_idle", "rounds_judged_poll_initial_request_then_immediate_close", "rounds_judged_poll_trigger_then_immediate_close"} {
 		if c[k] == 0 {
 			out = append(out, "oracle branch never exercised: "+k)
 		}
@@ -2077,9 +2153,9 @@ func postMerge(tier string, c map[string]int64) []string {
 func main() {
 	vlib.Main(&vlib.Spec{
 		ID: "C05",
-		Rule: "exhaustive: every query over {a,b,*} up to length 4 (thorough 5) against a 3-level x 2-name tree held by two targets under origin 'oc', at every prefix/path split, with the origin in the prefix, in the path, or absent (first element '*', the literal origin, or nothing), for one target and target '*', as ONCE and as POLL with one trigger; plus every ordered pair of queries up to length 3 as a two-path ONCE subscription on '*'. " +
-			"static: seeded cache contents (1-3 targets, origin sets {''},{oc},{oc,o2},{'',oc} stamped in the prefix, keyed elements with one and two keys, both path encodings, multi-update notifications, one atomic container, 5-30 leaves) and, per content, one ONCE and one POLL subscription (1-4 paths derived from stored leaves by cutting, running one element past the leaf, '*' or a stray name at any position; origin in prefix / path / absent; target '*' in 35 %; duplicate and path-less subscriptions; 8 % rejected origin combinations), POLL with 0-4 triggers and 1-4 sequential cache changes (update, add, exact / wildcard delete, atomic container, new target) between rounds; every third trial a slow receiver. " +
-			"concurrent: 1-3 targets, one writer goroutine per target (150-500 updates with unique values, leaf / subtree deletes, re-adds) while 3-6 ONCE / POLL(1-3) RPCs are issued at seeded moments; GOMAXPROCS in {2,4,16}; seeded delays at 5 schedule points, every 3rd trial a long hold at one of them. " +
+		Rule: "exhaustive: every query over {a,b,*} up to length 4 (thorough 5) against a 3-level x 2-name tree held by two targets under origin 'oc', at every prefix/path split, with the origin in the prefix, in the path, or absent (first element '*', the literal origin, or nothing), for one target and target '*', as ONCE, as POLL with one trigger (request stream closed after the last sync_response), as POLL whose single trigger (issued after the first sync_response was received) is followed by CloseSend at once, and as POLL whose initial request is followed by CloseSend at once (every other half-close case with a slow receiver); plus every ordered pair of queries up to length 3 as a two-path ONCE subscription on '*'. " +
+			"static: seeded cache contents (1-3 targets, origin sets {''},{oc},{oc,o2},{'',oc} stamped in the prefix, keyed elements with one and two keys, both path encodings, multi-update notifications, one atomic container, 5-30 leaves) and, per content, one ONCE and one POLL subscription (1-4 paths derived from stored leaves by cutting, running one element past the leaf, '*' or a stray name at any position; origin in prefix / path / absent; target '*' in 35 %; duplicate and path-less subscriptions; 8 % rejected origin combinations), POLL with 0-4 triggers, in a third of the POLL RPCs the request stream is closed immediately after the last request (the initial one or the last trigger) instead of after its sync_response, and 1-4 sequential cache changes (update, add, exact / wildcard delete, atomic container, new target) between rounds; every third trial a slow receiver. " +
+			"concurrent: 1-3 targets, one writer goroutine per target (150-500 updates with unique values, leaf / subtree deletes, re-adds) while 3-6 ONCE / POLL(1-3, a third with the request stream closed right after the last trigger) RPCs are issued at seeded moments; GOMAXPROCS in {2,4,16}; seeded delays at 5 schedule points, every 3rd trial a long hold at one of them. " +
 			"pollidle: server with a send timeout T of 50-150 ms, random content, POLL with 1-2 triggers; after every round's sync_response (also the last) the client stays idle for 3-4 x T, then changes the cache, issues the next trigger or closes the request stream; same snapshot oracle per round, RPC must end with nil; the trials of a shard run side by side. " +
 			"An RPC is a distinct non-trivial case when it was judged to the end and at least one of its rounds had a non-empty matching set (hashed by request, cache content and number of rounds); a concurrent trial when all its RPCs were judged (hashed by its schedule-point sequence).",
 		Assumptions: []string{
@@ -2088,7 +2164,7 @@ func main() {
 			"the model holds, per leaf, the notification the cache is documented to hold (the notification itself, or a copy with the single update for each update of a multi-update notification, the whole notification for an atomic one); responses are compared with proto.Equal after clearing the 'duplicates' field",
 			"a leaf delivered more often than it is selected is counted as a diagnostic only (the statement says 'at least once')",
 			"for the two origin combinations CompletePath rejects only the end of the RPC is required (the request stream is closed right after the request)",
-			"POLL is driven interactively: a trigger is issued only after the previous sync_response was observed, CloseSend after the last round",
+			"POLL is driven interactively: a trigger is issued only after the previous sync_response was observed by the harness (a trigger sent earlier may legitimately be coalesced with the running round and is never generated); CloseSend comes either after the last round's sync_response or, in the half-close class, immediately after the last request (initial request or last trigger) before that round is read: every round asked for is still owed completely (matching set, one sync) and the RPC must end with nil",
 			"concurrent mode: one writer per target, unique int values, fixed-depth leaves; a value is accepted iff its write was invoked before the response was handed to Send and the next operation on that leaf had not returned before the round started; a leaf is required iff a write to it returned before the round started and no delete covering it was invoked before the round ended; logical clock = one shared atomic counter",
 			"pollidle is one-sided: while the client is idle the server has nothing to send, so correct code has no send timer armed and a longer wait (load) changes nothing; an RPC that ends during that idle period is a violation, a send timeout firing while a round is being sent is recorded as inconclusive (load)",
 			"an RPC or round that does not complete is a violation only when nothing was sent for 20 s after the writers had finished, the harness kept being scheduled throughout, and the goroutine dump shows the RPC still inside Subscribe; otherwise inconclusive. After two such RPCs the remaining RPCs of the shard are skipped",
